@@ -3,3 +3,4 @@ pub mod eval;
 pub mod generate;
 pub mod print;
 pub mod harness;
+pub mod naming;
